@@ -18,7 +18,7 @@ from vf.seq import outcome
 PROP = "C13"
 LEVEL = "exploration"
 RULE = ("seeded cases of two kinds. 'roundtrip': 40 records drawn alternately from 2 JSON, 3 CSV and 2 TSV record "
-        "classes; JSON values nested to depth 3 from str (all planes, lone surrogates, control chars, quotes, "
+        "classes plus JSON/CSV/TSV record classes that extend another record class (base classes used first); JSON values nested to depth 3 from str (all planes, lone surrogates, control chars, quotes, "
         "backslashes), ints (incl. >2**64), finite floats, bools, None, lists, str-keyed dicts; CSV/TSV fields int, "
         "float, str without '\\n'/'\\r' but with delimiters, quotes, backslashes, blanks, empty, NUL, non-ASCII. "
         "'file': 0-8 records of one class written one per line, read through RecordFile / MemoryMappedRecordFile "
@@ -87,7 +87,40 @@ def classes():
             a: str
             b: str
             c: int
-        _CLS.update(J1=J1, J2=J2, C1=C1, C2=C2, C3=C3, T1=T1, T2=T2)
+        # record classes that extend another concrete record class; the base classes are used first (as a program
+        # that loads plain records before extended ones would): anything cached per class must not leak to subclasses
+        @dataclass
+        class JB(JsonRecord):
+            ident: int
+            name: str = ""
+
+        @dataclass
+        class JX(JB):
+            score: Any = None
+            tags: list = field(default_factory=list)
+
+        @dataclass
+        class CB(CSVRecord):
+            ident: int
+            name: str
+
+        @dataclass
+        class CX(CB):
+            score: float
+            note: str
+
+        @dataclass
+        class TB(TSVRecord):
+            ident: int
+            name: str
+
+        @dataclass
+        class TX(TB):
+            note: str
+            score: float
+        for b in (JB(1, "b"), CB(1, "b"), TB(1, "b")):
+            type(b).load(b.save())
+        _CLS.update(J1=J1, J2=J2, C1=C1, C2=C2, C3=C3, T1=T1, T2=T2, JB=JB, JX=JX, CB=CB, CX=CX, TB=TB, TX=TX)
     return _CLS
 
 
@@ -171,11 +204,20 @@ def gen_record(rng, cname, file_safe=False):
                         gen_str(rng, False, file_safe)]]
     if cname == "T1":
         return [cname, [gen_str(rng, False, file_safe), gen_num(rng, "float")]]
+    if cname in ("JB", "CB", "TB"):
+        return [cname, [gen_num(rng, "int"), gen_str(rng, cname == "JB", file_safe)]]
+    if cname == "JX":
+        return [cname, [gen_num(rng, "int"), gen_str(rng, True, file_safe), gen_json(rng, 1, file_safe),
+                        [gen_json(rng, 1, file_safe) for _ in range(rng.randrange(3))]]]
+    if cname == "CX":
+        return [cname, [gen_num(rng, "int"), gen_str(rng, False, file_safe), gen_num(rng, "float"), gen_str(rng, False, file_safe)]]
+    if cname == "TX":
+        return [cname, [gen_num(rng, "int"), gen_str(rng, False, file_safe), gen_str(rng, False, file_safe), gen_num(rng, "float")]]
     return [cname, [gen_str(rng, False, file_safe), gen_str(rng, False, file_safe), gen_num(rng, "int")]]
 
 
 def gen_case(rng, tier, index):
-    names = ["J1", "J2", "C1", "C2", "C3", "T1", "T2"]
+    names = ["J1", "J2", "C1", "C2", "C3", "T1", "T2", "JX", "CX", "TX", "JB", "CB", "TB"]
     if index == 0:
         # dedicated input of the known finding json-adjacent-surrogates-merge
         return {"kind": "roundtrip", "ops": [["J1", ["\ud800\udfff", None]]]}
